@@ -24,9 +24,6 @@ class CrashingFile:
         self._k = k
         self._text = text
         self._written = 0
-        if k <= 0 and text:
-            # a text table is only created here; the earliest possible death is right after creation
-            pass
 
     def write(self, data):
         raw = data.encode("utf-8") if self._text else bytes(data)
@@ -60,13 +57,26 @@ class CrashingFile:
         return iter(self._f)
 
 
-def install(target, k):
+def install(target, k, prefix=False, exclude=()):
+    """Failpoint on the file `target`; with prefix=True on the first file written whose path starts with `target`
+    (so that a download is caught whatever temporary suffix it uses, or none), except names containing one of `exclude`."""
     target = os.path.abspath(target)
+    chosen = []
+
+    def matches(path):
+        if not prefix:
+            return path == target
+        if chosen:
+            return path == chosen[0]
+        if path.startswith(target) and not any(x in path[len(target):] for x in exclude):
+            chosen.append(path)
+            return True
+        return False
 
     def fp_open(file, mode="r", *a, **kw):
         f = _real_open(file, mode, *a, **kw)
         if isinstance(file, (str, bytes, os.PathLike)) and ("w" in mode or "a" in mode or "x" in mode):
-            if os.path.abspath(os.fsdecode(file)) == target:
+            if matches(os.path.abspath(os.fsdecode(file))):
                 return CrashingFile(f, k, "b" not in mode)
         return f
 
@@ -88,7 +98,7 @@ def main(argv):
     from props import c14_drive
 
     c14_drive.install()
-    install(spec["target"], spec["k"])
+    install(spec["target"], spec["k"], spec.get("prefix", False), spec.get("exclude", ()))
     try:
         c14_drive.call(spec["call"], spec["base_url"])
     except BaseException as e:  # pylint: disable=broad-except
